@@ -42,7 +42,7 @@ MODES = ['n', 't0', 't120', 'b']
 ALPHABET = ([('a', o, t, m) for o in (0, 1) for t in (0, 1) for m in MODES] +
             [('r', o, t, f) for o in (0, 1) for t in (0, 1) for f in (False, True)])
 # whole with-blocks: `with obj.acquire_ctx(blocking=False / timeout / blocking)` and the plain `with obj:`
-XMODES = ['n', 't0', 't120', 'b', 'w']
+XMODES = ['n', 't0', 't120', 'b', 'w', 'we']
 ALPHABET_X = ALPHABET + [('x', o, t, m) for o in (0, 1) for t in (0, 1) for m in XMODES]
 CONFIGS = [(False, False), (True, False), (True, True)]
 
